@@ -305,15 +305,23 @@ def _work(idxs):
     src = "\n".join(p.csrc for p in probes)
     rc, asm, err = vf.chibicc_S(src, name="chunk%d_%d" % (idxs[0], os.getpid()), builddir=_BUILD, want_rc=True)
     progs = {}
+    P = None
     if rc == 0:
-        P = asmx.Program(asm)
+        try:
+            P = asmx.Program(asm)
+        except asmx.Unmodelled:
+            P = None
+    if P is not None:
         for p in probes:
             progs[p.key] = P
     else:
         for p in probes:
             rc1, asm1, err1 = vf.chibicc_S(p.csrc, name="one%d_%s" % (os.getpid(), p.fn), builddir=_BUILD, want_rc=True)
             if rc1 == 0:
-                progs[p.key] = asmx.Program(asm1)
+                try:
+                    progs[p.key] = asmx.Program(asm1)
+                except asmx.Unmodelled as ex:
+                    progs[p.key] = ("asm-unparsable", str(ex), asm1)
             else:
                 progs[p.key] = ("compile-fail", rc1, err1)
     for p in probes:
@@ -322,6 +330,20 @@ def _work(idxs):
         res = dict(key=p.key, family=p.family, status="proved", detail="", secs=0.0, replay=None, nq=0,
                    insns=0, paths=0, validated=0)
         try:
+            if isinstance(P, tuple) and P[0] == "asm-unparsable":
+                # the emitted text is outside the closed vocabulary: does the real assembler accept it?
+                kind, rc2, out = native_run(p.csrc, "int main(void){return 0;}\n", "as")
+                if kind == "cc-fail":
+                    res["status"] = "violated"
+                    res["detail"] = "emitted assembly is not assemblable (%s): %s" % (P[1], out.strip()[-200:])
+                    res["replay"] = ("#!/bin/bash\n# emitted assembly is rejected by the assembler\ncat > \"$WORK/p.c\" <<'EOF_P'\n%s\nEOF_P\n"
+                                     "\"$CHIBICC\" -I\"$CHIBICC_INCLUDE\" -c -o \"$WORK/p.o\" \"$WORK/p.c\"\n" % p.csrc)
+                else:
+                    res["status"] = "inconclusive"
+                    res["detail"] = "unmodelled assembly: " + P[1]
+                res["secs"] = time.time() - t1
+                results.append(res)
+                continue
             if isinstance(P, tuple):
                 _, rc1, err1 = P
                 res["status"] = "violated"
